@@ -77,6 +77,20 @@ static long pgen_LW (PgenCb cb, void *user)
       pg_name (&p, "LW", cnt++);
       cb (&p, user);
     }
+    /* the same with named constants narrower than the operation, negative and positive */
+    for (w = 1; w < o->src_size[1]; w *= 2) {
+      VProg p;
+      int d1, s1, c1, d2, s2, c2;
+      memset (&p, 0, sizeof (p));
+      d1 = vprog_addvar (&p, VK_D, o->dest_size[0]); s1 = vprog_addvar (&p, VK_S, o->src_size[0]);
+      d2 = vprog_addvar (&p, VK_D, o->dest_size[0]); s2 = vprog_addvar (&p, VK_S, o->src_size[0]);
+      c1 = vprog_addvar (&p, VK_C, w); p.v[c1].cval = -3;
+      c2 = vprog_addvar (&p, VK_C, w); p.v[c2].cval = 100;
+      vprog_addinsn (&p, o->name, 0, 3, d1, s1, c1, -1);
+      vprog_addinsn (&p, o->name, 0, 3, d2, s2, c2, -1);
+      pg_name (&p, "LW", cnt++);
+      cb (&p, user);
+    }
   }
   return cnt;
 }
